@@ -85,6 +85,11 @@ class Tape:
         return self.pick(name, [("none", ""), ("1", " "), ("2", "  "), ("tab", "\t")],
                          [1 - p, p * 0.7, p * 0.2, p * 0.1])
 
+    def qblanks(self, name, p=0.3):
+        """an optional position inside a quantity: as blanks(), or a block comment (skipped like blanks)"""
+        return self.pick(name, [("none", ""), ("1", " "), ("2", "  "), ("tab", "\t"), ("block-comment", " [- c -]")],
+                         [1 - p, p * 0.65, p * 0.2, p * 0.1, p * 0.05])
+
     def flip(self, name, p=0.5):
         return self.pick(name, [("no", False), ("yes", True)], [1 - p, p])
 
@@ -152,9 +157,9 @@ def print_value(v, t):
 
 def print_qty(q, t, ext):
     """inside the braces.  q = {"v": value, "lock": bool, "unit": str|None}"""
-    s = t.blanks("qty.lead", 0.2)
+    s = t.qblanks("qty.lead", 0.2)
     if q["lock"]:
-        s += "=" + t.blanks("qty.after-lock", 0.3)
+        s += "=" + t.qblanks("qty.after-lock", 0.3)
     s += print_value(q["v"], t)
     u = q["unit"]
     if u is not None:
@@ -162,8 +167,8 @@ def print_qty(q, t, ext):
         if adv_ok and t.flip("qty.advanced-blank-instead-of-percent", 0.25):
             s += t.pick("qty.advanced-gap", [("1", " "), ("2", "  ")], [0.85, 0.15]) + u
         else:
-            s += t.blanks("qty.before-percent", 0.3) + "%" + t.blanks("qty.after-percent", 0.3) + u
-    s += t.blanks("qty.trail", 0.2)
+            s += t.qblanks("qty.before-percent", 0.3) + "%" + t.qblanks("qty.after-percent", 0.3) + u
+    s += t.qblanks("qty.trail", 0.2)
     return s
 
 
@@ -253,22 +258,35 @@ def single_word(name):
     return name.isalnum() and all(ord(ch) < 128 or ch.isalpha() for ch in name)
 
 
+def print_name(name, t):
+    """a multi-word name: each inner blank may be two blanks or a line wrap (names are trimmed and their
+    blank runs collapsed; a newline inside text is one blank)"""
+    if " " not in name:
+        return name
+    ws = name.split(" ")
+    out = ws[0]
+    for w in ws[1:]:
+        out += t.pick("name.inner-blank", [("1", " "), ("2", "  "), ("wrap", "\n")], [0.9, 0.06, 0.04]) + w
+    return out
+
+
 def print_component(c, t, ext):
     kind = c["kind"]
     marker = {"igr": "@", "cw": "#", "tm": "~"}[kind]
     s = marker + print_mods(c, t)
     name = c["name"] or ""
-    body = name
+    body = print_name(name, t)
     if c.get("alias") is not None:
         body += t.blanks("alias.before-bar", 0.15) + "|" + t.blanks("alias.after-bar", 0.15) + c["alias"]
     q = c.get("qty")
     if q is not None:
-        s += body + "{" + print_qty(q, t, ext) + "}"
+        s += body + (t.blanks("comp.blank-before-brace", 0.06) if body else "") + "{" + print_qty(q, t, ext) + "}"
         t.counts["comp.form=braces-with-quantity"] += 1
     elif c.get("alias") is None and name and single_word(name) and t.flip("comp.bare-single-word", 0.5):
         s += body
     else:
-        s += body + "{" + t.blanks("comp.inside-empty-braces", 0.2) + "}"
+        s += body + (t.blanks("comp.blank-before-brace", 0.06) if body else "") + "{" + \
+            t.blanks("comp.inside-empty-braces", 0.2) + "}"
     if c.get("note") is not None:
         s += "(" + t.blanks("note.lead", 0.15) + c["note"] + t.blanks("note.trail", 0.15) + ")"
     return s
@@ -277,20 +295,27 @@ def print_component(c, t, ext):
 # ---------------------------------------------------------------------------------------------
 # blocks
 
-def sep(t, allow_wrap=True, allow_comment=True):
-    """one blank of the intended text, spelled"""
+def sep(t, allow_wrap=True, allow_comment=True, glue_ok=True):
+    """one blank of the intended text, spelled.  A comment may touch the previous piece only when that
+    cannot change a token (`-` before `--`, `[` before `-`): glue_ok"""
     opts = [("1-blank", " "), ("2-blanks", "  "), ("tab", "\t")]
     w = [0.62, 0.06, 0.03]
     if allow_wrap:
         opts += [("wrap", "\n"), ("blank+wrap", " \n"), ("wrap+indent", "\n  ")]
         w += [0.08, 0.02, 0.02]
         if allow_comment:
-            opts += [("line-comment+wrap", " -- a remark\n"), ("line-comment-glued+wrap", "-- remark @x{1}\n")]
-            w += [0.03, 0.01]
+            opts += [("line-comment+wrap", " -- a remark\n")]
+            w += [0.03]
+            if glue_ok:
+                opts += [("line-comment-glued+wrap", "-- remark @x{1}\n")]
+                w += [0.01]
     if allow_comment:
-        opts += [("block-comment", " [- aside -] "), ("block-comment-left-glued", "[- aside -] "),
-                 ("block-comment-right-glued", " [- aside -]"), ("block-comment-2-lines", " [- an\naside -] ")]
-        w += [0.04, 0.01, 0.01, 0.02]
+        opts += [("block-comment", " [- aside -] "), ("block-comment-right-glued", " [- aside -]"),
+                 ("block-comment-2-lines", " [- an\naside -] ")]
+        w += [0.04, 0.01, 0.02]
+        if glue_ok:
+            opts += [("block-comment-left-glued", "[- aside -] ")]
+            w += [0.01]
     return t.pick("step.separator", opts, w)
 
 
@@ -303,7 +328,8 @@ def print_step(items, t, ext, mode):
             out.append(print_word(it[1], t))
             continue
         if not first:
-            out.append(sep(t))
+            prev = out[-1][-1:]
+            out.append(sep(t, glue_ok=prev.isalnum() or prev in "})"))
         if k == "w":
             out.append(print_word(it[1], t, at_block_start=first))
         elif k == "temp":
@@ -323,7 +349,7 @@ def print_text_block(lines, t):
         ws = [print_word(w, t, at_block_start=(li > 0 and i == 0), raw_markers=True) for i, w in enumerate(words)]
         line = ws[0]
         for w in ws[1:]:
-            line += sep(t, allow_wrap=False) + w
+            line += sep(t, allow_wrap=False, glue_ok=line[-1:].isalnum()) + w
         out.append(line)
         if li + 1 < len(lines):
             out.append("\n")
@@ -697,7 +723,7 @@ class SpecGen:
         r = self.r
         k = r.random()
         if allow_text and k < 0.15:
-            return ("text", r.choice(TEXT_VALUES + ([] if self.ext else ["2-3", "1 cup", "1/0"])))
+            return ("text", r.choice(TEXT_VALUES + ([] if self.ext else ["2-3", "1 cup"])))
         if self.ext and allow_range and k < 0.3:
             return ("range", self.number(), self.number())
         return ("num", self.number())
